@@ -961,6 +961,11 @@ pub fn corpus_c07(tier: &str, rng: &mut Rng) -> Vec<Case> {
         ("canonical-old", Canon, "pragma solidity ^0.4.24;\n"),
         ("caret-in-disjunction", Canon, "pragma solidity ^0.7.0 || ^0.8.0;\n"),
         ("caret-second-pragma", Canon, "pragma solidity 0.8.10;\npragma solidity ^0.8.0;\n"),
+        ("caret-not-first-in-disjunction", Canon, "pragma solidity 0.7.6 || ^0.8.0;\n"),
+        ("caret-after-lower-bound", Canon, "pragma solidity >=0.7.0 ^0.8.0;\n"),
+        ("caret-after-spaces", Canon, "pragma solidity    ^0.8.0;\n"),
+        ("caret-after-newline", Canon, "pragma solidity\n    ^0.8.0;\n"),
+        ("caret-without-space", Canon, "pragma solidity^0.8.0;\n"),
         ("pinned", Near, "pragma solidity 0.8.10;\n"),
         ("pinned-old", Near, "pragma solidity 0.4.24;\n"),
         ("pinned-1-0-0", Near, "pragma solidity 1.0.0;\n"),
